@@ -96,7 +96,7 @@ def gen_tree(rng, root):
         return rng.choice([p for p, k in paths if k == "D"])
 
     for _ in range(rng.randint(1, 5)):
-        kind = rng.weighted([("in->out", 3), ("in->in", 2), ("out->in", 3), ("dangling", 1), ("in->..", 1),
+        kind = rng.weighted([("in->out", 3), ("in->in", 2), ("out->in", 3), ("dangling", 1), ("dangling-creatable", 2.5), ("in->..", 1),
                              ("loop", 0.15), ("out->out", 0.5), ("chain", 0.7)])
         nm = rng.choice(["lnk.m3u8", "link", "l2.m3u8", "ldir", ".lnk", "L.MP3"])
         if kind == "in->out":
@@ -109,6 +109,10 @@ def gen_tree(rng, root):
             add_link(outs, nm, rng.choice(outs)[0], pick_dir(outs))
         elif kind == "dangling":
             add_link(ins, nm, ["outside", "nope", "gone.m3u8"], pick_dir(ins))
+        elif kind == "dangling-creatable":
+            # the target does not exist but its directory does: whoever writes THROUGH the link creates it
+            add_link(ins, rng.choice(["dang.m3u8", "lnk.m3u8", "fresh.m3u8"]), ["outside", f"made-via-link-{counter[0]}.m3u8"],
+                     rng.choice([["inside"], pick_dir(ins)]))
         elif kind == "in->..":
             dd = pick_dir(ins)
             node = tree
@@ -326,7 +330,7 @@ UNICODE_NAMES = ["\u2024\u2024\uff0foutside\uff0fmoved", "\uff0e\uff0e\uff0f\uff
                  "\uff0e\uff0e", "\uff0e", "\u2024", "\ufe52\ufe52\uff0fx", "\uff3cback\uff3c", "\u3000", "\u00a0", "\u3000x\u3000",
                  "sub\uff0fnew", "\uff0fabs", "\u2025\uff0foutside\uff0fy", "cafe\u0301", "caf\u00e9", "\u212b", "\ufb01", "\uff11",
                  "\u2215x", "\u2044y", "\u2400"]
-CREATE_NAMES = UNICODE_NAMES + ["new", "a/b", "..", ".", " ", "../x", "/abs", "lnk", "l2", "link", "ldir", "c1", "a", "b", "sp ace", "ünï",
+CREATE_NAMES = UNICODE_NAMES + ["dang", "dang", "fresh", "lnk", "new", "a/b", "..", ".", " ", "../x", "/abs", "lnk", "l2", "link", "ldir", "c1", "a", "b", "sp ace", "ünï",
                 "x" * 300, "nul\x00byte", "a.m3u8", ".hidden", "sub"]
 RENAME_NAMES = UNICODE_NAMES + ["Re/named", "Re/named", "plain", "..", " .. ", ".", " . ", "../x", "../../x", "/etc/x", "..|..",
                 "outside", "../outside", "a.b", " ", "sub", "x" * 300]
@@ -462,7 +466,8 @@ def m3u_stage(chk):
                            if not (t[0] == "entry" and ((t[1], t[2]) in rec.temps
                                                         or (t[1] in cdirs and t[2].startswith(b"tmp"))))]
                 effects = [t for t in touches if t in rec.effects]
-                monitors_m3u(chk, op, uri, cls, root, base, before, after, effects, res, ti, tree,
+                monitors_m3u(chk, op, uri if op not in ("create", "as_list") else f"{op}({create_name!r})", cls, root, base,
+                             before, after, effects, res, ti, tree,
                              new_name if op == "save_rename" else None,
                              "playlists_dir" if base_dir_cfg is None else str(base_dir_cfg).replace(str(root), "<R>"))
                 mop = {"create": f"m3u_create fs base (create_component {g_name(os.fsencode(create_name.strip()))} "
@@ -486,6 +491,61 @@ def m3u_stage(chk):
                             "uris": ups[:6]})
             guard_cases.append((fs_name, fs_term, base_c, this_guard))
             op_cases.append((fs_name, fs_term, base_c, this_ops))
+            # --- sequences on ONE provider with the file system changed in between: a URI is served
+            #     while its entry is a regular file inside, then the entry is replaced on disk by a
+            #     symbolic link to an outside file and the same provider is asked again
+            import copy
+            in_files = [pth for pth, k in all_paths(tree["inside"][1], []) if k == "F"]
+            out_files = [pth for pth, k in all_paths(tree["outside"][1], []) if k == "F"]
+            for k in range(3 if quick else 5):
+                if not in_files or not out_files:
+                    break
+                pth, tgt = rng.choice(in_files), rng.choice(out_files)
+                uri = "m3u:" + urllib.parse.quote("/".join(pth))
+                upath = oracle_upath(urllib.parse.quote("/".join(pth)))
+                for _ in range(2):
+                    provider.lookup(uri)
+                    provider.get_items(uri)
+                tree2 = copy.deepcopy(tree)
+                node = tree2["inside"][1]
+                for c in pth[:-1]:
+                    node = node[c][1]
+                node[pth[-1]] = ("L", str(root.joinpath("outside", *tgt)))
+                rebuild(tree2, root)
+                op = rng.choice(["lookup", "get_items", "get_items", "save", "delete"])
+                before = snapshot(str(root))
+                cls = classify_path(mpath.uri_to_path(uri), base)
+                with Recorder() as rec:
+                    try:
+                        if op == "lookup":
+                            res = provider.lookup(uri)
+                            res = None if res is None else [t.uri for t in res.tracks]
+                        elif op == "get_items":
+                            res = provider.get_items(uri)
+                            res = None if res is None else [t.uri for t in res]
+                        elif op == "save":
+                            res = provider.save(Playlist(uri=uri, tracks=(Track(uri="dummy:new"),)))
+                            res = res and res.uri
+                        else:
+                            res = provider.delete(uri)
+                        raised = 0
+                    except Exception as e:  # noqa: BLE001
+                        res, raised = None, exc_code(e)
+                after = snapshot(str(root))
+                cdirs = {t[1] for t in rec.touches if t[0] == "create"}
+                touches = [t for t in dict.fromkeys(rec.touches)
+                           if not (t[0] == "entry" and ((t[1], t[2]) in rec.temps or (t[1] in cdirs and t[2].startswith(b"tmp"))))]
+                monitors_m3u(chk, op + "-after-entry-became-link", uri, cls, root, base, before, after,
+                             [t for t in touches if t in rec.effects], res, ti, tree2, None,
+                             "playlists_dir" if base_dir_cfg is None else str(base_dir_cfg).replace(str(root), "<R>"))
+                mop = {"lookup": "m3u_lookup fs base p", "get_items": "m3u_lookup fs base p", "save": "m3u_save fs base p",
+                       "delete": "m3u_delete fs base p"}[op]
+                op_cases.append((f"fs{ti}s{k}", g_fs(tree2, root), base_c, [(upath, mop, raised, touches, "true")]))
+                op_meta.append({"tree": ti, "op": op + "-after-entry-became-link", "uri": uri, "raised": raised, "new_name": None,
+                                "touches": [(a, os.fsdecode(d), os.fsdecode(b)) for a, d, b in touches]})
+                chk.dist("op:stale-sequence:" + op)
+                chk.count(1, nontrivial_key=("seq", ti, k))
+                rebuild(tree, root)
         finally:
             shutil.rmtree(root, ignore_errors=True)
 
